@@ -85,8 +85,12 @@ namespace vf
             descending  = 1, // bump downwards with guard gaps
             adjacent    = 2, // bump upwards, zero gap
             reuse_last  = 3, // ascending, but reuse the most recently freed block of equal size
-            n_policies  = 4
+            far         = 4, // successive blocks alternate between three windows 3 GiB apart (address
+                             // differences do not fit into 32 bits)
+            n_policies  = 5
         };
+        static constexpr size_t    far_size   = size_t(8) << 20;
+        static constexpr uintptr_t far_off[2] = {uintptr_t(3) << 30, uintptr_t(6) << 30};
 
         static Slab& get()
         {
@@ -104,6 +108,18 @@ namespace vf
             {
                 std::perror("vf::Slab mmap at fixed address");
                 std::_Exit(4);
+            }
+            for (int w = 0; w < 2; ++w)
+            {
+                void* q = mmap(reinterpret_cast<void*>(base_addr + far_off[w]), far_size, PROT_READ | PROT_WRITE,
+                               MAP_PRIVATE | MAP_ANONYMOUS | MAP_FIXED_NOREPLACE | MAP_NORESERVE, -1, 0);
+                if (q == MAP_FAILED || q != reinterpret_cast<void*>(base_addr + far_off[w]))
+                {
+                    std::perror("vf::Slab mmap of a far window");
+                    std::_Exit(4);
+                }
+                far_[w] = static_cast<char*>(q);
+                VF_POISON(far_[w], far_size);
             }
             mem_ = static_cast<char*>(p);
             lo_  = mem_ + obj_area;
@@ -125,8 +141,12 @@ namespace vf
                 // blocks are re-poisoned on release; nothing else to do
             }
             skew_        = 0;
-            policy_      = policy % n_policies;
+            // (values that meant one of the first four policies in saved programs keep their meaning)
+            policy_      = policy % 7 == 6 ? unsigned(far) : policy % 4;
             gap_         = policy_ == adjacent ? 0 : (gap + 15) / 16 * 16;
+            far_up_[0]   = far_[0] + 4096;
+            far_up_[1]   = far_[1] + 4096;
+            far_next_    = 0;
             up_          = lo_ + 4096;
             down_        = hi_ - 4096;
             seq_         = 0;
@@ -200,7 +220,22 @@ namespace vf
             }
             if (!p)
             {
-                if (policy_ == descending)
+                unsigned w = policy_ == far ? far_next_++ % 3 : 0;
+                if (w != 0)
+                {
+                    auto a = (reinterpret_cast<uintptr_t>(far_up_[w - 1]) + align - 1) / align * align;
+                    if (skew_ && req_align <= skew_ && skew_ % req_align == 0)
+                        a += skew_;
+                    if (a + bytes + 4096 <= reinterpret_cast<uintptr_t>(far_[w - 1]) + far_size)
+                    {
+                        p              = reinterpret_cast<char*>(a);
+                        far_up_[w - 1] = p + bytes + gap_;
+                    }
+                }
+                if (p)
+                {
+                }
+                else if (policy_ == descending)
                 {
                     auto a = (reinterpret_cast<uintptr_t>(down_) - bytes) / align * align;
                     p      = reinterpret_cast<char*>(a);
@@ -355,7 +390,12 @@ namespace vf
         bool in_slab(const void* p) const
         {
             auto c = static_cast<const char*>(p);
-            return c >= mem_ && c < mem_ + total_size;
+            return (c >= mem_ && c < mem_ + total_size) || (c >= far_[0] && c < far_[0] + far_size)
+                   || (c >= far_[1] && c < far_[1] + far_size);
+        }
+        unsigned policy() const
+        {
+            return policy_;
         }
 
     private:
@@ -363,6 +403,8 @@ namespace vf
         char *                 mem_ = nullptr, *lo_ = nullptr, *hi_ = nullptr;
         char *                 up_ = nullptr, *down_ = nullptr, *obj_lo_ = nullptr, *obj_hi_ = nullptr;
         char *                 touched_lo_ = nullptr, *touched_hi_ = nullptr;
+        char *                 far_[2] = {nullptr, nullptr}, *far_up_[2] = {nullptr, nullptr};
+        unsigned               far_next_ = 0;
         unsigned               policy_ = 0;
         size_t                 gap_    = 64, skew_ = 0;
         uint64_t               seq_    = 0;
